@@ -741,6 +741,21 @@ def _norm_elem(v):
     return tuple(_norm_elem(x) if isinstance(x, tuple) else x for x in v)
 
 
+def has_free_rec(t):
+    """t mentions the loop-carried value ('rec',) of an ENCLOSING merge: a 'rec' under a nested merge that has a rec-free
+    alternative belongs to that nested loop head, not to ours."""
+    if not isinstance(t, tuple) or not t:
+        return False
+    if t == ('rec',):
+        return True
+    if t[0] == 'phi':
+        alts = t[1]
+        if any(not has_free_rec(a) for a in alts):
+            return False
+        return True
+    return any(has_free_rec(x) for x in t if isinstance(x, tuple))
+
+
 def seq_iter_parts(it, depth=0):
     """Parts produced by an iterator-valued term, or None."""
     if depth > 12 or not isinstance(it, tuple) or not it:
@@ -861,8 +876,8 @@ def seq_parts(t, depth=0, literal_only=False):
             return None
     if k == 'phi':
         alts = list(t[1])
-        init = [a for a in alts if not contains(a, lambda x: x == ('rec',))]
-        loop = [a for a in alts if contains(a, lambda x: x == ('rec',))]
+        init = [a for a in alts if not has_free_rec(a)]
+        loop = [a for a in alts if has_free_rec(a)]
         if len(init) == 1 and loop:
             b = seq_parts(init[0], depth + 1, literal_only)
             if b is None:
